@@ -27,6 +27,8 @@ func runC13(c *Ctx) {
 	// wiring
 	writerEmissionRules(c, "C13")
 	readerNextFrameRules(c, "C13")
+	// the first-fragment decision depends on fseq, which the resets must clear
+	c18Writer(c)
 }
 
 func c13RsvLayout(c *Ctx) {
